@@ -2763,7 +2763,12 @@ func (s *Server) serveConnCounted(c net.Conn, countConcurrency bool) error {
 			ctx.Request.bodyStream = nil
 		}
 
-		idleConnTime.Store(ctx.time.Unix())
+		// A connection that still holds an unflushed response (the next
+		// pipelined request is already buffered) is not idle: Shutdown must
+		// not close it before that response has gone out.
+		if bw == nil || bw.Buffered() == 0 {
+			idleConnTime.Store(ctx.time.Unix())
+		}
 		s.setState(c, StateIdle)
 		ctx.Request.Reset()
 		ctx.Response.Reset()
